@@ -74,6 +74,8 @@ def find_tags(x, acc):
 
 
 def run(ctx, out):
+    import families as _famadh
+    out.evaluations += _famadh.argument_dependent_handlers(out, PROP)
     import pane
     import importlib
     V = importlib.import_module('pane.convert')
